@@ -12,4 +12,13 @@ func init() {
 			Decode: DecodeTree,
 		})
 	}
+	for _, p := range []string{"C04", "C05"} {
+		p := p
+		sim.Register(&sim.Engine{
+			Prop:   p,
+			Gen:    func(r *sim.Rand, tier string) sim.Script { return GenRounds(p, r, tier) },
+			Exec:   ExecRounds,
+			Decode: DecodeRounds,
+		})
+	}
 }
